@@ -21,7 +21,8 @@ TRIGGER_CLASSES = ["open:lock", "replace:lock", "replace:lock", "close:marker", 
 FAULT_KINDS = ["kill", "kill", "kill", "interrupt", "codegen-fail", "cc-fail", "cc-fail", "ld-fail",
                "marker-enospc", "lock-eacces", "kill-torn-link", "kill-torn-obj", "stall",
                "torn-write-kill", "load-fail", "bad-library"]
-PRE_KINDS_C15 = ["orphan-lock", "orphan-lock+torn-so", "stale-failed", "stale-failed+leftovers", "warm"]
+PRE_KINDS_C15 = ["orphan-lock", "orphan-lock+torn-so", "stale-failed", "stale-failed+leftovers", "warm",
+                 "warm+stale-failed", "stale-failed+complete-so"]
 
 
 # --------------------------------------------------------------------------------------
@@ -158,7 +159,7 @@ def gen_scenario(seed, mode, thorough, golden):
     procs = []
     for i in range(nprocs):
         nreq = rng.choice([1, 1, 1, 2])
-        reqs = [{"req": rng.choice(mods), "timeout": rng.choice([1, 2, 3, 3, 5, 5, 10, 10])}
+        reqs = [{"req": rng.choice(mods), "timeout": rng.choice([1, 2, 3, 3, 5, 5, 10, 10, 30])}
                 for _ in range(nreq)]
         procs.append({"name": i, "arrive": round(rng.uniform(0, 3.0), 3) if spread else 0.0,
                       "requests": reqs})
@@ -192,6 +193,9 @@ def gen_scenario(seed, mode, thorough, golden):
             if rng.random() < 0.5:
                 pre["leftovers"] = True
             scn["pre"].append(pre)
+        elif c < 0.55:
+            scn["pre"].append({"kind": rng.choice(["warm+stale-failed", "stale-failed+complete-so"]),
+                               "req": rng.choice(mods)})
         if rng.random() < 0.15:
             scn["faults"].append({"kind": "stall", "proc": "holder", "at": rng.randrange(0, 25),
                                   "dur": round(rng.uniform(5, 60), 2)})
